@@ -114,7 +114,9 @@ class HypercubicPeriodicBoundaries(PeriodicBoundaries):
         float
             The position entry corrected for periodic boundaries.
         """
-        return position_entry % system_length
+        corrected_entry = position_entry % system_length
+        # For tiny negative entries, the float modulo rounds to the system length itself which is equivalent to 0.0.
+        return 0.0 if corrected_entry == system_length else corrected_entry
 
     @staticmethod
     def separation_vector(reference_position: Sequence[float],
